@@ -67,6 +67,20 @@ fn cases(tier: Tier) -> Vec<Case> {
             }
         }
     }
+    // remainders of very small operands (their product underflows although the quotient is ordinary)
+    {
+        let p600 = 2.0_f64.powi(-600);
+        let p650 = 2.0_f64.powi(-650);
+        for (ka, av) in [1.5 * p600, -1.5 * p600, 2.5 * p650, -7.25 * p650, 5e-324, -1.5e-323].iter().enumerate() {
+            for (kb, bv) in [p600, -p600, p650, -3.0 * p650, 1e-323].iter().enumerate() {
+                for a in contents(*av, ka) {
+                    for b in contents(*bv, kb + 1) {
+                        out.push(Case::Rem { a: a.clone(), b });
+                    }
+                }
+            }
+        }
+    }
     // sums: every sequence of length 0..=L over a small pool
     let sp: Vec<NumSpec> = vec![
         contents(0.5, 0)[1].clone(),
@@ -74,6 +88,10 @@ fn cases(tier: Tier) -> Vec<Case> {
         contents(7.5, 2)[0].clone(),
         contents(-0.5, 3)[3].clone(),
         contents(3.0, 4)[2].clone(),
+        // a single-name term on the second name, and a three-name term listed in an order that is not first appearance
+        NumSpec { v: 1.25, names: vec![1], g: vec![gen_val(9)], h: vec![gen_val(10)] },
+        NumSpec { v: 2.5, names: vec![0, 1, 2], g: vec![gen_val(20), gen_val(21), gen_val(22)], h: vec![gen_val(23), gen_val(24), gen_val(25), gen_val(24), gen_val(26), gen_val(27), gen_val(25), gen_val(27), gen_val(28)] },
+        NumSpec { v: -0.75, names: vec![1, 0, 2], g: vec![gen_val(11), gen_val(12), gen_val(13)], h: vec![gen_val(14), gen_val(15), gen_val(16), gen_val(15), gen_val(17), gen_val(18), gen_val(16), gen_val(18), gen_val(19)] },
     ];
     let maxlen = tier.pick(4, 5);
     let mut seqs: Vec<Vec<usize>> = vec![vec![]];
@@ -523,8 +541,8 @@ pub fn run(ctx: &Ctx, replay_file: Option<String>) -> ! {
     let meta = Meta::exploration(
         "every pair of numbers from (value table x 4 derivative contents) for comparisons and remainder in the forms \
          dual-dual / dual-float / float-dual, on Dual, Dual2 and Number; abs, signum / is_positive / is_negative / is_zero (also at +-0), abs_sub on every pair, and the zero/one identities on every \
-         number; every sequence of length 0..L over a 5-number pool for sum (items realised both as fresh numbers and as \
-         clones of one object), plus rotating sequences of length 7, 8, 9, 15, 16, 17, 31..34, 64, 65, 130 over a pool widened by numbers carrying all three names in several stored orders; remainders also with the two operands sharing one variable list; remainders with quotients of 1e13 .. 1e27 (beyond 2^53 and 2^63). Non-trivial: comparisons of unequal \
+         number; every sequence of length 0..L over an 8-number pool for sum (items realised both as fresh numbers and as \
+         clones of one object), plus rotating sequences of length 7, 8, 9, 15, 16, 17, 31..34, 64, 65, 130 over a pool widened by numbers carrying all three names in several stored orders; remainders also with the two operands sharing one variable list; remainders of operands around 2^-600 and of subnormal operands; remainders with quotients of 1e13 .. 1e27 (beyond 2^53 and 2^63). Non-trivial: comparisons of unequal \
          values with derivatives present, abs of negative numbers with derivatives, remainders with negative \
          non-integer quotient and derivatives, sums of >= 2 terms, identities on numbers that carry variables. \
          Oracle: float comparison; RefDual (by-name value/gradient/Hessian) for abs, rem = a - b*trunc(a/b), left fold \
